@@ -44,7 +44,13 @@ pub struct Obs {
 }
 
 /// Run the real library on a list of (id, text) files. A panic is returned as Err.
+/// Loader dimension: when an id starts with `@file:` the text is written to a run-private
+/// temporary file and loaded with `Parser<PathBuf>::add_file` (the results come back under the
+/// given ids) - loading a file must be equivalent to adding its text.
 pub fn run_files(files: &[(String, String)]) -> Result<Obs, String> {
+    if files.iter().any(|f| f.0.starts_with("@file:")) {
+        return run_files_from_disk(files);
+    }
     guarded(|| {
         let mut p: Parser<String> = Parser::new();
         let mut expected = Vec::new();
@@ -62,6 +68,69 @@ pub fn run_files(files: &[(String, String)]) -> Result<Obs, String> {
             expected,
         }
     })
+}
+
+/// remove the run-private directory of the add_file loader (called once, at the end of a run)
+pub fn remove_loader_dir() {
+    let _ = std::fs::remove_dir_all(std::env::temp_dir().join(format!("verif-harness-{}", std::process::id())));
+}
+
+fn run_files_from_disk(files: &[(String, String)]) -> Result<Obs, String> {
+    use std::path::PathBuf;
+    static COUNTER: std::sync::atomic::AtomicU64 = std::sync::atomic::AtomicU64::new(0);
+    let n = COUNTER.fetch_add(1, std::sync::atomic::Ordering::Relaxed);
+    let dir = std::env::temp_dir().join(format!("verif-harness-{}", std::process::id()));
+    std::fs::create_dir_all(&dir).map_err(|e| format!("MACHINERY: cannot create {dir:?}: {e}"))?;
+    let paths: Vec<PathBuf> = (0..files.len()).map(|k| dir.join(format!("c{n}-f{k}.aidl"))).collect();
+    let out = guarded(|| {
+        let mut p: Parser<PathBuf> = Parser::new();
+        let mut expected = Vec::new();
+        for ((id, text), path) in files.iter().zip(paths.iter()) {
+            let _ = aidl_parser::verif_hooks::take_expected();
+            if id.starts_with("@file:") {
+                std::fs::write(path, text).expect("write temporary file");
+                // an I/O error on a readable UTF-8 file leaves the id without a result: reported by the caller
+                let _ = p.add_file(path);
+            } else {
+                p.add_content(path.clone(), text);
+            }
+            expected.push(aidl_parser::verif_hooks::take_expected());
+        }
+        let conv = |m: &HashMap<PathBuf, ParseFileResult<PathBuf>>| -> Results {
+            let mut r = Results::new();
+            for (k, path) in paths.iter().enumerate() {
+                if let Some(res) = m.get(path) {
+                    r.insert(
+                        files[k].0.clone(),
+                        ParseFileResult {
+                            id: if res.id == *path { files[k].0.clone() } else { format!("{:?}", res.id) },
+                            ast: res.ast.clone(),
+                            diagnostics: res.diagnostics.clone(),
+                        },
+                    );
+                }
+            }
+            // results under paths that were never added
+            for k in m.keys() {
+                if !paths.contains(k) {
+                    r.insert(format!("unexpected:{k:?}"), ParseFileResult { id: format!("{k:?}"), ast: None, diagnostics: Vec::new() });
+                }
+            }
+            r
+        };
+        let parse = conv(p.verif_parse_results());
+        let valid = conv(&p.validate());
+        let _ = aidl_parser::verif_hooks::take_orders();
+        Obs {
+            parse,
+            valid,
+            expected,
+        }
+    });
+    for p in &paths {
+        let _ = std::fs::remove_file(p);
+    }
+    out
 }
 
 pub fn is_error(d: &Diagnostic) -> bool {
